@@ -352,6 +352,11 @@ fn container_modules(out: &mut Vec<ZooModule>) {
         .def("Tbits21then", Ty::seq(vec![Comp::new("b", Ty::bits(Size::Fix(21, false))), Comp::new("t", Ty::Bool), Comp::new("i", Ty::int_r(0, 255))]))
         .def("Tbits70then", Ty::seq(vec![Comp::new("b", Ty::bits(Size::Fix(70, false))), Comp::new("i", Ty::int_r(0, 255))]))
         .def("Tbitsanythen", Ty::seq(vec![Comp::new("b", Ty::bits(Size::Range(17, Some(23), false))), Comp::new("i", Ty::int_r(0, 255))]))
+        // zero-bit mandatory ROOT components (NULL, a single-value INTEGER, an empty SEQUENCE) in front of the extension
+        // additions: every component, also one without bits, counts when the additions' header is placed
+        .def("Tnullroot", Ty::Seq { set: false, comps: vec![Comp::new("n", Ty::Null), Comp::new("x", Ty::Bool), Comp::new("a", Ty::int_r(0, 7)), Comp::new("b", Ty::Bool).opt()], ext_after: Some(2) })
+        .def("Tfixroot", Ty::Seq { set: false, comps: vec![Comp::new("v", Ty::int_r(5, 5)), Comp::new("x", Ty::int_r(0, 7)), Comp::new("a", Ty::Bool), Comp::new("b", Ty::int_r(0, 3)).opt()], ext_after: Some(2) })
+        .def("Tnulloptroot", Ty::Seq { set: true, comps: vec![Comp::new("n", Ty::Null).opt(), Comp::new("x", Ty::Bool), Comp::new("a", Ty::int_r(0, 7))], ext_after: Some(2) })
         .def("Tref1", Ty::r("Tref2"))
         .def("Tref2", Ty::r("Tinner"))
         .def("Tinline", Ty::seq(vec![Comp::new("pick", Ty::choice(vec![Alt::new("i", Ty::int_r(0, 7)), Alt::new("s", ia5(Size::Fix(2, false)))])), Comp::new("en", Ty::enum_n(3)).opt(), Comp::new("sq", Ty::seq(vec![Comp::new("z", Ty::Bool)]))]))
